@@ -52,6 +52,9 @@ type Step struct {
 	Idx   int      `json:"idx,omitempty"`
 	Sig   int      `json:"sig,omitempty"`
 	Args  []uint64 `json:"args,omitempty"`
+	// inst: experimental.WithImportResolver designates instance Resolve[name] for imports from
+	// module `name` (it may shadow an instance registered under that name)
+	Resolve map[string]string `json:"resolve,omitempty"`
 }
 
 type Case struct {
@@ -132,6 +135,8 @@ func runCase(c *Case, engine string) *runResult {
 			msg = r.access(s)
 		case "gc":
 			letTimePass()
+		case "close":
+			msg = r.close(s)
 		}
 		if msg == "" && (r.res.harness != "" || r.res.excluded != "") {
 			return r.res
@@ -171,7 +176,20 @@ func (r *runner) instantiate(s Step) string {
 		return "" // instance names are unique by construction; nothing to do on a damaged replay file
 	}
 	spec := r.c.Specs[s.Spec]
+	r.m.resolve = s.Resolve
 	p := r.m.plan(spec, s.As)
+	r.m.resolve = nil
+	ictx := r.ctx
+	if len(s.Resolve) > 0 {
+		ictx = experimental.WithImportResolver(r.ctx, func(name string) api.Module {
+			if d, ok := s.Resolve[name]; ok {
+				if mod := r.mods[d]; mod != nil {
+					return mod
+				}
+			}
+			return nil
+		})
+	}
 	if p.specCompat && !r.allowExcluded {
 		switch {
 		case p.elemOOB >= 0:
@@ -205,9 +223,9 @@ func (r *runner) instantiate(s Step) string {
 	}
 	if s.Bytes {
 		r.nonce++
-		mod, err = r.rt.InstantiateWithConfig(r.ctx, spec.build(fmt.Sprintf("%s-%d", s.As, r.nonce)), mc)
+		mod, err = r.rt.InstantiateWithConfig(ictx, spec.build(fmt.Sprintf("%s-%d", s.As, r.nonce)), mc)
 	} else {
-		mod, err = r.rt.InstantiateModule(r.ctx, cm, mc)
+		mod, err = r.rt.InstantiateModule(ictx, cm, mc)
 	}
 	if err == nil {
 		if !p.specCompat {
@@ -264,6 +282,26 @@ func (r *runner) instantiate(s Step) string {
 		r.failed = true // functions of the failed instance live on in shared tables
 	}
 	return r.afterFailure()
+}
+
+// close closes an instance that only imports what it shares (see model.closable): everything
+// it imported must stay alive and unchanged for the other instances.
+func (r *runner) close(s Step) string {
+	in, ok := r.m.live[s.Inst]
+	if !ok || !r.m.closable(in) {
+		r.res.labels["step:skipped"]++
+		return ""
+	}
+	if err := r.mods[s.Inst].Close(r.ctx); err != nil {
+		return "Close failed: " + firstLine(err.Error())
+	}
+	delete(r.mods, s.Inst)
+	r.m.close(s.Inst)
+	r.res.labels["close:importer-closed"]++
+	if msg := r.sweep(false); msg != "" {
+		return "after closing " + s.Inst + ": " + msg
+	}
+	return ""
 }
 
 // afterFailure re-reads the whole store after a failed instantiation.
@@ -597,6 +635,15 @@ func record(c *Case, results []*runResult) {
 	for _, st := range c.Script {
 		if st.Acc == "rtcall" || st.Acc == "rcall" {
 			lbls = append(lbls, "case:with-tail-call-accessor")
+			break
+		}
+	}
+	if m.closed > 0 {
+		lbls = append(lbls, "case:with-closed-importer")
+	}
+	for _, st := range c.Script {
+		if len(st.Resolve) > 0 {
+			lbls = append(lbls, "case:with-import-resolver")
 			break
 		}
 	}
